@@ -194,12 +194,50 @@ pub fn dump(a: &dyn Array) -> Option<Node> {
 
 // ------------------------------------------------------------------ real array -> logical column (accessors / iterators)
 fn bits(b: &[u8]) -> LV { LV::Int(BigInt::from_bytes_le(Sign::Plus, b)) }
-/// mode 0: is_null(i) + value(i);  mode 1: iter() where the array type has one
+/// Drains a double-ended, exact-size iterator of the real array in the order given by `mode` and puts every item
+/// at its logical position: 1 forwards, 2 backwards (next_back only), 3 alternating next / next_back from both
+/// ends, 4 the last third from the back first and then forwards.  len() / size_hint() must count down exactly and
+/// both ends must report exhaustion; otherwise a column of the wrong length is returned (so the spec disagrees).
+fn drain<I, T>(mut it: I, n: usize, mode: usize, f: impl Fn(T) -> Option<LV>) -> Option<Vec<LV>>
+where I: DoubleEndedIterator<Item = Option<T>> + ExactSizeIterator {
+    let bad = || Some(vec![LV::Null; n + 1]);
+    if it.len() != n || it.size_hint() != (n, Some(n)) { return bad() }
+    let mut out: Vec<Option<LV>> = vec![None; n];
+    let (mut i, mut j, mut step) = (0usize, n, 0usize);
+    while i < j {
+        let from_back = match mode { 1 => false, 2 => true, 3 => step % 2 == 1, _ => step < (n / 3).max(1) };
+        let Some(item) = (if from_back { it.next_back() } else { it.next() }) else { return bad() };
+        let lv = match item { None => LV::Null, Some(v) => f(v)? };
+        if from_back { j -= 1; out[j] = Some(lv) } else { out[i] = Some(lv); i += 1 }
+        step += 1;
+        if it.len() != j - i || it.size_hint() != (j - i, Some(j - i)) { return bad() }
+    }
+    if it.next().is_some() || it.next_back().is_some() { return bad() }
+    out.into_iter().collect()
+}
+/// RunArrayIter (TypedRunArray::into_iter) for the value types that have a typed accessor; None = no such iterator
+fn ree_iter<R: RunEndIndexType>(ra: &RunArray<R>, mode: usize) -> Option<Option<Vec<LV>>> {
+    let n = ra.len();
+    macro_rules! typed { ($v:ty, $f:expr) => { Some(drain(ra.downcast::<$v>()?.into_iter(), n, mode, $f)) } }
+    macro_rules! prim { ($t:ty) => { typed!(PrimitiveArray<$t>, |v: <$t as ArrowPrimitiveType>::Native| Some(bits(v.to_byte_slice()))) } }
+    match ra.values().data_type() {
+        DataType::Boolean => typed!(BooleanArray, |v: bool| Some(LV::Bool(v))),
+        DataType::Utf8 => typed!(StringArray, |v: &str| Some(LV::Bytes(v.as_bytes().to_vec()))),
+        DataType::LargeUtf8 => typed!(LargeStringArray, |v: &str| Some(LV::Bytes(v.as_bytes().to_vec()))),
+        DataType::Binary => typed!(BinaryArray, |v: &[u8]| Some(LV::Bytes(v.to_vec()))),
+        DataType::LargeBinary => typed!(LargeBinaryArray, |v: &[u8]| Some(LV::Bytes(v.to_vec()))),
+        DataType::Utf8View => typed!(StringViewArray, |v: &str| Some(LV::Bytes(v.as_bytes().to_vec()))),
+        DataType::BinaryView => typed!(BinaryViewArray, |v: &[u8]| Some(LV::Bytes(v.to_vec()))),
+        DataType::FixedSizeBinary(_) => typed!(FixedSizeBinaryArray, |v: &[u8]| Some(LV::Bytes(v.to_vec()))),
+        dt => with_prim_type!(dt, prim, None),
+    }
+}
+/// mode 0: is_null(i) + value(i);  modes 1..4: the array's iterator (see `drain`) where the array type has one
 pub fn read_lv(a: &dyn Array, mode: usize) -> Option<Vec<LV>> {
     let n = a.len();
     macro_rules! by_index { ($arr:expr, $f:expr) => {{ let arr = $arr; (0..n).map(|i| if arr.is_null(i) { LV::Null } else { $f(arr.value(i)) }).collect::<Vec<LV>>() }} }
-    macro_rules! by_iter { ($arr:expr, $f:expr) => {{ let arr = $arr; arr.iter().map(|o| match o { None => LV::Null, Some(v) => $f(v) }).collect::<Vec<LV>>() }} }
-    macro_rules! rd { ($arr:expr, $f:expr) => { if mode == 1 { by_iter!($arr, $f) } else { by_index!($arr, $f) } } }
+    macro_rules! by_iter { ($arr:expr, $f:expr) => {{ let arr = $arr; drain(arr.iter(), n, mode, |v| Some($f(v)))? }} }
+    macro_rules! rd { ($arr:expr, $f:expr) => { if mode >= 1 { by_iter!($arr, $f) } else { by_index!($arr, $f) } } }
     Some(match a.data_type() {
         DataType::Null => vec![LV::Null; n],
         DataType::Boolean => rd!(a.as_boolean(), |v: bool| LV::Bool(v)),
@@ -213,12 +251,12 @@ pub fn read_lv(a: &dyn Array, mode: usize) -> Option<Vec<LV>> {
         DataType::List(_) | DataType::LargeList(_) | DataType::ListView(_) | DataType::LargeListView(_) | DataType::FixedSizeList(_, _) | DataType::Map(_, _) => {
             let mut out = Vec::with_capacity(n);
             macro_rules! lst { ($arr:expr) => {{ let arr = $arr;
-                if mode == 1 { for o in arr.iter() { out.push(match o { None => LV::Null, Some(v) => LV::List(read_lv(v.as_ref(), mode)?) }) } }
+                if mode >= 1 { out = drain(arr.iter(), n, mode, |v: ArrayRef| Some(LV::List(read_lv(v.as_ref(), mode)?)))? }
                 else { for i in 0..n { out.push(if arr.is_null(i) { LV::Null } else { LV::List(read_lv(arr.value(i).as_ref(), mode)?) }) } } }} }
             match a.data_type() {
                 DataType::List(_) => lst!(a.as_list::<i32>()), DataType::LargeList(_) => lst!(a.as_list::<i64>()),
-                DataType::ListView(_) => { let arr = a.as_list_view::<i32>(); for i in 0..n { out.push(if arr.is_null(i) { LV::Null } else { LV::List(read_lv(arr.value(i).as_ref(), mode)?) }) } }
-                DataType::LargeListView(_) => { let arr = a.as_list_view::<i64>(); for i in 0..n { out.push(if arr.is_null(i) { LV::Null } else { LV::List(read_lv(arr.value(i).as_ref(), mode)?) }) } }
+                DataType::ListView(_) => lst!(a.as_list_view::<i32>()),
+                DataType::LargeListView(_) => lst!(a.as_list_view::<i64>()),
                 DataType::Map(_, _) => { let arr = a.as_map(); for i in 0..n { out.push(if arr.is_null(i) { LV::Null } else { LV::List(read_lv(&arr.value(i), mode)?) }) } }
                 _ => lst!(a.as_fixed_size_list()),
             }
@@ -235,13 +273,15 @@ pub fn read_lv(a: &dyn Array, mode: usize) -> Option<Vec<LV>> {
             keys.iter().map(|k| match k { LV::Int(z) => { let i = usize::try_from(z).ok()?; vals.get(i).cloned() } _ => Some(LV::Null) }).collect::<Option<Vec<LV>>>()?
         }
         DataType::RunEndEncoded(r, _) => {
-            macro_rules! ree { ($t:ty) => {{ let ra = a.as_any().downcast_ref::<RunArray<$t>>()?; let vals = read_lv(ra.values().as_ref(), mode)?;
-                (0..n).map(|i| vals[ra.get_physical_index(i)].clone()).collect::<Vec<LV>>() }} }
+            macro_rules! ree { ($t:ty) => {{ let ra = a.as_any().downcast_ref::<RunArray<$t>>()?;
+                match if mode >= 1 { ree_iter::<$t>(ra, mode) } else { None } {
+                    Some(col) => col?,
+                    None => { let vals = read_lv(ra.values().as_ref(), mode)?; (0..n).map(|i| vals[ra.get_physical_index(i)].clone()).collect::<Vec<LV>>() } } }} }
             match r.data_type() { DataType::Int16 => ree!(Int16Type), DataType::Int32 => ree!(Int32Type), DataType::Int64 => ree!(Int64Type), _ => return None }
         }
         DataType::Union(_, _) => return None,
         _ => downcast_primitive_array!(
-            a => { if mode == 1 { a.iter().map(|o| match o { None => LV::Null, Some(v) => bits(v.to_byte_slice()) }).collect() }
+            a => { if mode >= 1 { drain(a.iter(), n, mode, |v| Some(bits(v.to_byte_slice())))? }
                    else { (0..n).map(|i| if a.is_null(i) { LV::Null } else { bits(a.value(i).to_byte_slice()) }).collect() } }
             _t => return None
         ),
@@ -905,7 +945,7 @@ fn emit_col_cases(r: &mut Rng, col: &Col, emit: &mut dyn FnMut(Case), tier_eq_pa
     let th = ty_head(&col.ty); let fl = col.fl;
     // (1) accessors / iterators read back exactly the denoted column
     for (node, path, name) in &col.reals {
-        let mode = r.below(2);
+        let mode = r.below(5);
         let mut args: Args = vec![gs(&[*path as i64, fl as i64, mode as i64])]; enc_node(node, &mut args);
         emit(Case::new("c02.logical", args, &["c02.logical.spec"], format!("logical {th} {name} p{path} m{mode}")));
     }
@@ -948,13 +988,17 @@ fn emit_col_cases(r: &mut Rng, col: &Col, emit: &mut dyn FnMut(Case), tier_eq_pa
         emit(Case::new("c02.eq", args, &["c02.eq.spec"], format!("neq {th} {an} type")));
     } } }
     // (4) slice = window on the column
-    for _ in 0..2 {
+    // (run-end types: twice as many, every second one through the iterator backwards / from both ends, with a
+    //  non-zero offset and an end that cuts off trailing physical runs whenever the length allows)
+    let has_ree = contains_ty(&col.ty, &|t| matches!(t, Ty::Ree { .. }));
+    for c in 0..(if has_ree { 4 } else { 2 }) {
         let (node, path, name) = r.pick(&col.reals).clone(); let len = node.len;
-        let o = r.below(len + 1); let n = r.below(len - o + 1); let mode = r.below(2);
+        let (mut o, mut n, mut mode) = (r.below(len + 1), 0, r.below(5)); n = r.below(len - o + 1);
+        if has_ree && c % 2 == 1 && len >= 3 { o = 1 + r.below(len - 2); n = 1 + r.below(len - o - 1); mode = 2 + r.below(3) }
         // KNOWN-FINDING candidate (F3): ArrayData::slice on a Struct keeps the offset AND slices the children; excluded
         let via_data = (!contains_ty(&col.ty, &|t| matches!(t, Ty::Struct(_))) && r.chance(1, 3)) as i64;
         let mut args: Args = vec![gs(&[path as i64, fl as i64, mode as i64, o as i64, n as i64, via_data])]; enc_node(&node, &mut args);
-        emit(Case::new("c02.slice", args, &["c02.slice", "c02.slice.spec"], format!("slice {th} {name} d{via_data}")));
+        emit(Case::new("c02.slice", args, &["c02.slice", "c02.slice.spec"], format!("slice {th} {name} d{via_data} m{mode}")));
     }
 }
 
@@ -1107,7 +1151,7 @@ pub fn generate(tier: &str, r: &mut Rng, emit: &mut dyn FnMut(Case)) {
         };
         let len = pick_len(r, true); let nullp = *r.pick(&[0, 0, 1, 2, 3]);
         let vs = gen_lv(r, &ty, if kind == 0 && utf8 { 2 } else if kind == 0 && large { 1 } else { 0 }, len, nullp);
-        let mode = r.below(2) as i64;
+        let mode = r.below(5) as i64;
         let args: Args = vec![gs(&[kind, w as i64, large as i64, utf8 as i64, mode]), enc_col(&vs)];
         let th = ty_head(&ty);
         emit(Case::new("c02.build", args.clone(), &["c02.build", "c02.build.spec"], format!("build {th} n{nullp} m{mode}")));
